@@ -23,13 +23,15 @@ Direct oracles (independent of the model), written as `VIOL <prop> <hid> <step> 
       after `del tree` + gc.collect(): every delta is 0; weakrefs to user-class keys/values die
       when the harness drops its own references; capacity outside 4..65535 must raise
       ValueError; crash / ASan report.
-Environment: C_HARNESS_ASAN=1 adds an ASan pass, C_HARNESS_PLAIN=1 a pass on the build without
-the dump hook (oracles only)."""
+Environment: C_HARNESS_ASAN=1 adds an ASan pass (only crashes / ASan reports are kept from it),
+C_HARNESS_PLAIN=1 a pass on the build without the dump hook (the production build; oracles
+only, no trace is written for the extra passes); C_HARNESS_HIST_TIMEOUT=<s> per-history watchdog
+(default 120 s; a history that runs longer is reported as VIOL C12 .. timeout)."""
 import sys, os, gc, subprocess, hashlib, shutil, fcntl, signal, weakref, sysconfig, glob
 
 ROOT = os.path.dirname(os.path.dirname(os.path.dirname(os.path.abspath(__file__))))
 BUILD = os.path.join(ROOT, "build")
-BUILD_SH = os.path.join(BUILD, "cext", "build.sh")
+BUILD_SH = os.path.join(ROOT, "harness", "c", "build_ext.sh")
 # self-test of the checker only (mutated copies of the sources in a scratch directory):
 #   C_HARNESS_SRC=<dir with the .c/.h files>  C_HARNESS_OUT=<scratch build root>
 REPO_SRC = os.environ.get("C_HARNESS_SRC", "/repo/python/bplustree_c_src")
